@@ -2,7 +2,7 @@
     Proved on the model (Simp.v, tied to expression_helper.py by exact-tree correspondence):
       (fixpoint)   for ALL trees, every result of the simplifier is a fixpoint of its own rewriting step at the root: applying
                    _expr_simp once more returns an == expression;
-      (idempotent) on well-formed trees (SimpProofs.wf, fragments 1-4: constants, identifiers, memory cells, conditionals,
+      (idempotent) on well-formed trees (SimpProofs.wf with ac = false, fragments 1-4: constants, identifiers, memory cells, conditionals,
                    + * ^ & | -, slices, shifts, ==, parity; the identifier predicate determines is_term, as every name signature does)
                    the result is a DEEP normal form — every node of it is returned unchanged by the rewriting step — and
                    simplifying it again returns the IDENTICAL tree, whatever the fuel;
@@ -26,13 +26,13 @@ Print Assumptions C13_result_is_fixpoint_of_the_step.
 (** idempotence on well-formed trees: the result is a deep normal form, and a second pass returns the identical tree *)
 Theorem C13_idempotent_on_well_formed_trees : forall (Q : string -> Z -> bool -> bool -> bool),
   (forall n w r t t', Q n w r t = true -> Q n w r t' = true -> t = t') ->
-  forall fuel e r, wf Q e = true -> simp fuel e = Ok r -> forall f, simp (S f) r = Ok r.
+  forall fuel e r, wf false Q e = true -> simp fuel e = Ok r -> forall f, simp (S f) r = Ok r.
 Proof. exact simp_idempotent. Qed.
 Print Assumptions C13_idempotent_on_well_formed_trees.
 
 Theorem C13_result_is_a_deep_normal_form : forall (Q : string -> Z -> bool -> bool -> bool),
   (forall n w r t t', Q n w r t = true -> Q n w r t' = true -> t = t') ->
-  forall fuel e r, wf Q e = true -> simp fuel e = Ok r -> DF r.
+  forall fuel e r, wf false Q e = true -> simp fuel e = Ok r -> DF r.
 Proof. exact simp_result_is_normal_form. Qed.
 Print Assumptions C13_result_is_a_deep_normal_form.
 
@@ -45,8 +45,8 @@ Theorem C13_canonical_order_is_a_permutation : forall l, Permutation (canonize_e
 Proof. exact (sort_by_perm key_expr). Qed.
 Print Assumptions C13_canonical_order_is_a_permutation.
 
-Theorem C13_operand_order_does_not_change_the_value : forall (Q : string -> Z -> bool -> bool -> bool) op k args args' fuel r r',
-  aop_of op = Some k -> Permutation args args' -> wf Q (EOp op args) = true -> wf Q (EOp op args') = true ->
+Theorem C13_operand_order_does_not_change_the_value : forall (ac : bool) (Q : string -> Z -> bool -> bool -> bool) op k args args' fuel r r',
+  aop_of op = Some k -> Permutation args args' -> wf ac Q (EOp op args) = true -> wf ac Q (EOp op args') = true ->
   simp fuel (EOp op args) = Ok r -> simp fuel (EOp op args') = Ok r' ->
   size r = size r' /\ forall rho mu iota, eval rho mu iota r = eval rho mu iota r'.
 Proof. exact operand_order_value. Qed.
@@ -65,5 +65,5 @@ Example C13_idempotent_nonvacuous :
   let Q := fun (n : string) (w : Z) (r t : bool) => Bool.eqb t false in
   let a := EId "a" 32 true false in let b := EId "b" 32 true false in
   let e := EOp "+" [EOp "+" [b; EInt false 32 3]; EOp ">>" [EOp "&" [a; EInt false 32 255]; EInt false 32 8]; EOp "-" [b]; a] in
-  (forall n w r t t', Q n w r t = true -> Q n w r t' = true -> t = t') /\ wf Q e = true /\ simp 20 e = Ok (EOp "+" [a; EInt false 32 3]).
+  (forall n w r t t', Q n w r t = true -> Q n w r t' = true -> t = t') /\ wf false Q e = true /\ simp 20 e = Ok (EOp "+" [a; EInt false 32 3]).
 Proof. split; [intros n w r t t' H1 H2; apply eqb_prop in H1; apply eqb_prop in H2; congruence|]. vm_compute. split; reflexivity. Qed.
